@@ -25,6 +25,9 @@ fn known_from_env() -> Vec<String> {
 fn main() {
     let args: Vec<String> = std::env::args().collect();
     let world = args.get(1).map(|s| s.as_str()).unwrap_or("");
+    if std::env::var("VERIF_TRACE").is_ok() {
+        sos_test_utils::init_tracing();
+    }
     let known = known_from_env();
     let mut out = Summary::default();
     match world {
@@ -250,6 +253,38 @@ fn main() {
                     }
                 }
             });
+        }
+        "multisync" => {
+            // replay multisync <cases.ndjson> <scratch> <first-index>
+            let scratch = std::path::PathBuf::from(&args[3]);
+            sos_verif_harness::init_audit(&scratch);
+            let cases = read_lines(&args[2]);
+            let first: usize = args.get(4).and_then(|s| s.parse().ok()).unwrap_or(0);
+            let prop = args.get(5).cloned().unwrap_or_default();
+            let rt = tokio::runtime::Builder::new_multi_thread()
+                .worker_threads(3)
+                .enable_all()
+                .build()
+                .unwrap();
+            rt.block_on(async {
+                for (i, c) in cases.iter().enumerate() {
+                    if let Err(e) = sync_world::run_multi_path(first + i, c, &scratch, &mut out, &known, &prop).await {
+                        eprintln!("harness error: {e:?}");
+                        std::process::exit(3);
+                    }
+                }
+            });
+        }
+        "acct-probe" => {
+            let scratch = std::path::PathBuf::from(&args[2]);
+            sos_verif_harness::init_audit(&scratch);
+            let rt = tokio::runtime::Builder::new_multi_thread().worker_threads(4).enable_all().build().unwrap();
+            rt.block_on(async {
+                if let Err(e) = files_world::account_conflict_probe(&scratch).await {
+                    eprintln!("probe error: {e:?}");
+                }
+            });
+            return;
         }
         "crypto" => {
             // replay crypto <cases.ndjson> <scratch> <trace-out> <quick|thorough> <ops> <seed>
